@@ -957,6 +957,41 @@ def regenerate_poolreset():
     return errors, changed
 
 
+# ======================================================================================= T-acc
+def generate_accessor():
+    """ThreadWorker._get_result: the order of the reads in the condition that fabricates an outcome -> Gen/Accessor.lean"""
+    sys.path.insert(0, str(REPO))
+    out = ['import PwVerif.Model.Accessor', '/-! GENERATED by harness/translate.py (T-acc) from /repo - do not edit. -/', 'namespace PwVerif.Gen', 'open PwVerif.Accessor', '']
+    errors = []
+    try:
+        c = getattr(importlib.import_module('pyworkers.thread'), 'ThreadWorker')
+        t = Translator(c)
+        fn, path = t.func_ast('_get_result')
+        body = [b for b in fn.body if not (isinstance(b, ast.Expr) and isinstance(getattr(b, 'value', None), ast.Constant))]
+        if not (len(body) == 2 and isinstance(body[0], ast.If) and not body[0].orelse
+                and [ast.unparse(x) for x in body[0].body] == ['self._result = (False, None)'] and ast.unparse(body[1]) == 'return self._result'):
+            raise Untranslatable(f'{path.name}:{fn.lineno}: _get_result does not have the known shape: {[ast.unparse(b) for b in body]}')
+        test = body[0].test
+        terms = [ast.unparse(v) for v in test.values] if isinstance(test, ast.BoolOp) and isinstance(test.op, ast.And) else [ast.unparse(test)]
+        known = {'self._result is None': '.resultIsNone', 'self._started': '.started', 'not self.is_alive()': '.notAlive'}
+        for x in terms:
+            if x not in known:
+                raise Untranslatable(f'{path.name}:{body[0].lineno}: unknown read `{x}` in the condition of _get_result')
+        out.append(f'/-- `ThreadWorker._get_result` ({path.name}:{fn.lineno}): reads of the condition under which an outcome is fabricated, in evaluation order -/')
+        out.append('def threadGetResult : List Read := [%s]\n' % ', '.join(known[x] for x in terms))
+    except Exception as e:
+        errors.append(f'accessor: {type(e).__name__}: {e}')
+        out.append('def threadGetResult : List Read := []\n')
+    out.append('end PwVerif.Gen')
+    return '\n'.join(out) + '\n', errors
+
+
+def regenerate_accessor():
+    text, errors = generate_accessor()
+    changed = write_if_changed(LEAN / 'PwVerif' / 'Gen' / 'Accessor.lean', text)
+    return errors, changed
+
+
 if __name__ == '__main__':
     errs, meta, changed = regenerate()
     print('RunLoops.lean', 'rewritten' if changed else 'unchanged')
@@ -978,7 +1013,9 @@ if __name__ == '__main__':
     print('Consumer.lean', 'rewritten' if changed9 else 'unchanged')
     errs8, changed8 = regenerate_poolreset()
     print('PoolReset.lean', 'rewritten' if changed8 else 'unchanged')
-    errs2 = errs2 + errs3 + errs4 + errs5 + errs6 + errs7 + errs8 + errs9 + errs10
+    errs11, changed11 = regenerate_accessor()
+    print('Accessor.lean', 'rewritten' if changed11 else 'unchanged')
+    errs2 = errs2 + errs3 + errs4 + errs5 + errs6 + errs7 + errs8 + errs9 + errs10 + errs11
     for e in errs + errs2:
         print('UNTRANSLATABLE', e)
     sys.exit(1 if errs or errs2 else 0)
